@@ -39,6 +39,11 @@ func c11Call(t c11Fataler, what string, f func()) {
 func c11DeriveProp(rec *verifkit.Recorder) func(t *rapid.T) {
 	return func(t *rapid.T) {
 		c := c11gen.XRD(t)
+		if rapid.IntRange(0, 3).Draw(t, "terminating") == 0 {
+			// An XRD that is being deleted is still rendered by its controllers (to find the CRD to clean up):
+			// the derived CRDs are the same.
+			c = c11gen.Terminate(c)
+		}
 		rec.Eval()
 		for _, l := range c.Labels {
 			rec.Label(l)
@@ -255,6 +260,11 @@ func TestVerifC11ValidateUpdate(t *testing.T) {
 	rapid.Check(t, func(t *rapid.T) {
 		old := c11gen.XRD(t)
 		upd, m := c11gen.Update(t, old)
+		if rapid.IntRange(0, 2).Draw(t, "terminating") == 0 {
+			// being deleted, finalizers held: immutability is not relaxed
+			old, upd = c11gen.Terminate(old), c11gen.Terminate(upd)
+			rec.Label("validate-update:terminating")
+		}
 		rec.Eval()
 		var errs []string
 		fields := map[string]bool{}
